@@ -610,5 +610,5 @@ func TestC02(t *testing.T) {
 	}
 	enumerate(t)
 	ev.Check(t, rec, "fault", rec.Pick(250, 1500), genCase, runCase)
-	ev.Check(t, rec, "concurrent", rec.Pick(20, 300), genConc, runConc)
+	ev.Check(t, rec, "concurrent", rec.Pick(40, 400), genConc, runConc)
 }
